@@ -33,13 +33,29 @@ def eval_case(case) -> Outcome:
         return out
     P.classify_site(out, an)
     P.root_causes(out, an)
-    site_path, site, c = an.zones[0]
+    root_ok = False
+    for site_path, site, c in an.zones:
+        if site.identifier != "Site":
+            continue
+        if site_path == ():
+            root_ok = True
+        elif True:
+            out.labels.add("nested-site")
+        check_site(out, an, case, site_path, site, c)
+    if not root_ok:
+        out.fail("C09.records_missing", "the root zone is not a site")
+    return out
+
+
+def check_site(out, an, case, site_path, site, c):
     eps = P.eps_of(c)
+    where0 = "/".join(site_path) or "<root>"
     di, tz, ts = an.target(site, S.DI), an.target(site, S.TZ), an.target(site, S.TS)
     if tz is None or ts is None or di is None:
-        out.fail("C09.records_missing", f"site targets present: DI={di is not None} TZ={tz is not None} TS={ts is not None}")
+        out.fail("C09.records_missing", f"site {where0}: targets present: DI={di is not None} TZ={tz is not None} TS={ts is not None}")
         return out
-    kids = [(p, z, cz) for p, z, cz in an.zones if len(p) == 1 and an.target(z, S.DI) is not None]
+    d = len(site_path)
+    kids = [(p, z, cz) for p, z, cz in an.zones if len(p) == d + 1 and p[:d] == site_path and an.target(z, S.DI) is not None]
     if len(kids) >= 2:
         out.labels.add("zones>=2")
     # --- Total-Process = sum of zones (against the reported zone values and against exact zone cascades)
@@ -47,7 +63,7 @@ def eval_case(case) -> Outcome:
         rep = sum(float(getattr(an.target(z, S.DI), attr)) for _, z, _ in kids)
         got = float(getattr(tz, attr))
         if abs(got - rep) > eps:
-            out.fail(f"C09.tz_sum_{nm}", f"Total-Process {nm}={got!r} but the zones' DI targets sum to {rep!r}")
+            out.fail(f"C09.tz_sum_{nm}", f"{where0}: Total-Process {nm}={got!r} but the zones' DI targets sum to {rep!r}")
         exact = float(sum((getattr(cz, nm) for _, _, cz in kids), Fr(0)))
         if abs(got - exact) > eps:
             out.fail(f"C09.tz_exact_{nm}", f"Total-Process {nm}={got!r} but the exact zonal cascades sum to {exact!r}")
@@ -123,10 +139,36 @@ def source_sink_site(draw, tier):
     return {"streams": streams, "utilities": draw(st.permutations(utils))}
 
 
+@st.composite
+def nested_site(draw, tier):
+    """Explicit zone tree with a site inside the site: Site -> [SA (Site) -> [P1, P2], P3]."""
+    mx = 6 if tier == "quick" else 9
+    pal = draw(G.palette(thirds=False))
+    labels = ["SA/P1", "SA/P2", "P3"]
+    ss = []
+    for i, lab in enumerate(labels):
+        for _ in range(draw(st.integers(1, 3))):
+            ss.append(draw(G.stream(pal, [lab], iso_share=0.05, thirds=False)))
+    ss = ss[: mx + 3]
+    us = draw(G.utilities(pal, 2, 2, 2, thirds=False))
+    tree = {
+        "name": "Site",
+        "type": "Site",
+        "children": [
+            {"name": "SA", "type": "Site", "children": [{"name": "P1", "type": "Process Zone", "children": None}, {"name": "P2", "type": "Process Zone", "children": None}]},
+            {"name": "P3", "type": "Process Zone", "children": None},
+        ],
+    }
+    if not any(x["zone"] == "SA/P2" for x in ss):
+        tree["children"][0]["children"].pop(1)
+    return {"streams": ss, "utilities": us, "zone_tree": tree}
+
+
 def strategy(tier):
     mx = 8 if tier == "quick" else 12
     return st.one_of(
         source_sink_site(tier),
+        nested_site(tier),
         G.problem(min_streams=3, max_streams=mx, shape="mixed", multi_zone=True, max_both=2),
         G.problem(min_streams=2, max_streams=mx, multi_zone=True, max_both=2, isothermal_utils=True),
         G.problem(min_streams=2, max_streams=mx, shape="mixed", max_both=2),
@@ -134,4 +176,4 @@ def strategy(tier):
 
 
 PARTS = [Part("service", eval_case, {"quick": 1000, "thorough": 25000}, strategy=strategy, min_nontrivial={"quick": 100, "thorough": 2500})]
-MIN_SHARE = {"service": {"zones>=2": 0.5, "both-level-between-source-and-sink": 0.1, "recovery-observed": 0.05}}
+MIN_SHARE = {"service": {"nested-site": 0.1, "zones>=2": 0.5, "both-level-between-source-and-sink": 0.1, "recovery-observed": 0.05}}
